@@ -1,5 +1,6 @@
 import Mathlib.Data.List.Basic
 import Mathlib.Data.List.Sublists
+import Mathlib.Data.Set.Card
 import Mathlib.Tactic
 
 /-!
@@ -1550,5 +1551,287 @@ theorem pfilter_sat (a : Asg) (l : ISeq) (d t : ℤ) :
 
 /-! ## uninterpreted in specs.py, NO schema emitted (nothing assumed, nothing to prove):
     `m_complete`, `m_functional`, `m_surjective`, `m_injective`, `m_nondecreasing`, `bitlen`, `rnbrs`. -/
+
+
+/-! # Third batch of schemas -/
+
+/-! ## guarded `tset` read-over-write exactly as now emitted by specs.py -/
+
+/-- `ForAll([j], And(tcoef(n, j) == If(And(j == i, 0 <= i, i < tlen(t)), c, tcoef(t, j)),
+    tlit(n, j) == If(And(j == i, 0 <= i, i < tlen(t)), l, tlit(t, j))))`, `n = tset(t, i, c, l)` -/
+theorem tget_set_forall_general (t : TSeq) (i c l : ℤ) :
+    ∀ j : ℤ, tcoef (tset t i c l) j = (if j = i ∧ 0 ≤ i ∧ i < tlen t then c else tcoef t j) ∧
+             tlit (tset t i c l) j = (if j = i ∧ 0 ≤ i ∧ i < tlen t then l else tlit t j) := by
+  intro j
+  unfold tcoef tlit
+  rw [tget_set_general]
+  split <;> exact ⟨rfl, rfl⟩
+
+/-! ## `cget_snoc` -/
+
+/-- `ForAll([j], Implies(And(0 <= j, j <= clen(c)), cget(csnoc(c, s), j) == If(j == clen(c), s, cget(c, j))))` -/
+theorem cget_snoc (c : CSeq) (s : ISeq) :
+    ∀ j : ℤ, (0 ≤ j ∧ j ≤ clen c) → cget (csnoc c s) j = (if j = clen c then s else cget c j) := by
+  rintro j ⟨h0, h1⟩
+  unfold clen at *
+  unfold cget csnoc
+  rw [List.getD_eq_getElem?_getD, List.getD_eq_getElem?_getD]
+  by_cases hj : j = (c.length : ℤ)
+  · have : j.toNat = c.length := by omega
+    simp [hj]
+  · have hlt : j.toNat < c.length := by omega
+    rw [if_neg hj, List.getElem?_append_left hlt]
+
+/-! ## `iget` element schemas and the witnesses `zpos`, `mpos` -/
+
+theorem iget_mem (s : ISeq) (i : ℤ) (h0 : 0 ≤ i) (h1 : i < ilen s) : iget s i ∈ s := by
+  unfold ilen at h1
+  unfold iget
+  have hlt : i.toNat < s.length := by omega
+  rw [List.getD_eq_getElem?_getD, List.getElem?_eq_getElem hlt]
+  exact List.getElem_mem hlt
+
+/-- `And(0 <= i, i < ilen(s)) -> zabs(iget(s, i)) <= maxabs(s)` -/
+theorem iget_le_maxabs (s : ISeq) (i : ℤ) : (0 ≤ i ∧ i < ilen s) → zabs (iget s i) ≤ maxabs s := by
+  rintro ⟨h0, h1⟩
+  rw [zabs_eq_natAbs]
+  exact natAbs_le_maxabs s _ (iget_mem s i h0 h1)
+
+/-- `And(0 <= i, i < ilen(s), Not(haszero(s))) -> iget(s, i) != 0` -/
+theorem iget_ne_zero (s : ISeq) (i : ℤ) : (0 ≤ i ∧ i < ilen s ∧ ¬ haszero s) → iget s i ≠ 0 := by
+  rintro ⟨h0, h1, hz⟩ h
+  apply hz
+  unfold haszero
+  rw [← h]; exact iget_mem s i h0 h1
+
+/-- first position of a zero literal (`len s` if there is none) -/
+def zpos (s : ISeq) : ℤ := ((s.findIdx (fun x => x == 0) : ℕ) : ℤ)
+/-- first position of a literal of maximal absolute value (`len s` for the empty list) -/
+def mpos (s : ISeq) : ℤ := ((s.findIdx (fun x => (x.natAbs : ℤ) == maxabs s) : ℕ) : ℤ)
+
+theorem findIdx_witness (s : ISeq) (p : ℤ → Bool) (h : ∃ x ∈ s, p x = true) :
+    (0 : ℤ) ≤ (s.findIdx p : ℕ) ∧ ((s.findIdx p : ℕ) : ℤ) < ilen s ∧
+      p (iget s ((s.findIdx p : ℕ) : ℤ)) = true := by
+  have hlt : s.findIdx p < s.length := List.findIdx_lt_length_of_exists h
+  refine ⟨by omega, by unfold ilen; omega, ?_⟩
+  unfold iget
+  rw [Int.toNat_natCast, List.getD_eq_getElem?_getD, List.getElem?_eq_getElem hlt]
+  exact List.findIdx_getElem
+
+/-- `haszero(s) -> And(0 <= zpos(s), zpos(s) < ilen(s), iget(s, zpos(s)) == 0)` -/
+theorem haszero_witness (s : ISeq) :
+    haszero s → (0 ≤ zpos s ∧ zpos s < ilen s ∧ iget s (zpos s) = 0) := by
+  intro h
+  obtain ⟨h0, h1, h2⟩ := findIdx_witness s (fun x => x == 0) ⟨0, h, by simp⟩
+  exact ⟨h0, h1, beq_iff_eq.mp h2⟩
+
+/-- `ilen(s) > 0 -> And(0 <= mpos(s), mpos(s) < ilen(s), zabs(iget(s, mpos(s))) == maxabs(s))` -/
+theorem maxabs_witness (s : ISeq) :
+    ilen s > 0 → (0 ≤ mpos s ∧ mpos s < ilen s ∧ zabs (iget s (mpos s)) = maxabs s) := by
+  intro h
+  have hne : s ≠ [] := by rintro rfl; simp [ilen] at h
+  obtain ⟨x, hx, hxe⟩ := maxabs_attained s hne
+  rw [Int.abs_eq_natAbs] at hxe
+  obtain ⟨h0, h1, h2⟩ := findIdx_witness s (fun x => (x.natAbs : ℤ) == maxabs s) ⟨x, hx, by simp [hxe]⟩
+  refine ⟨h0, h1, ?_⟩
+  rw [zabs_eq_natAbs]
+  exact beq_iff_eq.mp h2
+
+/-- `ilen(s) == 0 -> maxabs(s) == 0` -/
+theorem maxabs_of_length_zero (s : ISeq) : ilen s = 0 → maxabs s = 0 := by
+  intro h; rw [nil_of_length_zero s h]; rfl
+
+/-! ## `imapsub(s, A, n) = [A[l] for l in s]` with python indexing into a list of length `n` -/
+
+def imapsub (s : ISeq) (A : ℤ → ℤ) (n : ℤ) : ISeq := s.map (fun l => if l ≥ 0 then A l else A (n + l))
+
+/-- `ilen(imapsub(s, A, n)) == ilen(s)` -/
+theorem ilen_imapsub (s : ISeq) (A : ℤ → ℤ) (n : ℤ) : ilen (imapsub s A n) = ilen s := by
+  simp [ilen, imapsub]
+
+/-- `And(0 <= i, i < ilen(s)) -> iget(imapsub(s, A, n), i) == If(l >= 0, Select(A, l), Select(A, n + l))`,
+    `l = iget(s, i)` -/
+theorem iget_imapsub (s : ISeq) (A : ℤ → ℤ) (n i : ℤ) : (0 ≤ i ∧ i < ilen s) →
+    iget (imapsub s A n) i = (if iget s i ≥ 0 then A (iget s i) else A (n + iget s i)) := by
+  rintro ⟨h0, h1⟩
+  unfold ilen at h1
+  have hlt : i.toNat < s.length := by omega
+  unfold iget imapsub
+  rw [List.getD_eq_getElem?_getD, List.getD_eq_getElem?_getD, List.getElem?_map,
+    List.getElem?_eq_getElem hlt]
+  rfl
+
+/-! ## permutations stored in arrays: `isperm`, `sortedperm`, `invperm` -/
+
+/-- the index list `[0, …, n-1]` (empty for `n ≤ 0`) -/
+def idx (n : ℤ) : List ℤ := (List.range n.toNat).map (fun (i : ℕ) => (i : ℤ))
+
+theorem mem_idx (n j : ℤ) : j ∈ idx n ↔ (0 ≤ j ∧ j < n) := by
+  unfold idx
+  rw [List.mem_map]
+  constructor
+  · rintro ⟨i, hi, rfl⟩
+    rw [List.mem_range] at hi
+    omega
+  · rintro ⟨h0, h1⟩
+    exact ⟨j.toNat, List.mem_range.mpr (by omega), by omega⟩
+
+theorem length_idx (n : ℤ) : (idx n).length = n.toNat := by simp [idx]
+
+theorem idx_pairwise_lt (n : ℤ) : (idx n).Pairwise (· < ·) := by
+  unfold idx
+  rw [List.pairwise_map]
+  exact (List.pairwise_lt_range).imp (fun h => by omega)
+
+theorem idx_nodup (n : ℤ) : (idx n).Nodup :=
+  (idx_pairwise_lt n).imp (fun h => by omega)
+
+/-- `A[0..n)` is a permutation of `base..base+n-1` -/
+def isperm (A : ℤ → ℤ) (n base : ℤ) : Prop :=
+  List.Perm ((idx n).map A) ((idx n).map (fun j => base + j))
+/-- `T[0..n) = sorted(A[0..n))` -/
+def sortedperm (T A : ℤ → ℤ) (n : ℤ) : Prop :=
+  List.Perm ((idx n).map T) ((idx n).map A) ∧ ((idx n).map T).Pairwise (· ≤ ·)
+/-- inverse of a permutation of `0..n-1`: first index `i < n` with `A[i] = j` (0 if none) -/
+def invperm (A : ℤ → ℤ) (n : ℤ) : ℤ → ℤ :=
+  fun j => ((idx n).find? (fun i => A i == j)).getD 0
+
+/-- `isperm(A, n, base) -> ForAll([j], Implies(And(0 <= j, j < n),
+    And(base <= Select(A, j), Select(A, j) < base + n)))` -/
+theorem isperm_range (A : ℤ → ℤ) (n base : ℤ) : isperm A n base →
+    ∀ j : ℤ, (0 ≤ j ∧ j < n) → (base ≤ A j ∧ A j < base + n) := by
+  intro hp j hj
+  have h1 : A j ∈ (idx n).map A := List.mem_map.mpr ⟨j, (mem_idx n j).mpr hj, rfl⟩
+  have h2 := hp.subset h1
+  obtain ⟨i, hi, hie⟩ := List.mem_map.mp h2
+  rw [mem_idx] at hi
+  omega
+
+theorem invperm_spec (A : ℤ → ℤ) (n : ℤ) (hp : isperm A n 0) (j : ℤ) (hj : 0 ≤ j ∧ j < n) :
+    invperm A n j ∈ idx n ∧ A (invperm A n j) = j := by
+  have h1 : j ∈ (idx n).map (fun j => (0:ℤ) + j) :=
+    List.mem_map.mpr ⟨j, (mem_idx n j).mpr hj, by simp⟩
+  obtain ⟨i, hi, hie⟩ := List.mem_map.mp (hp.symm.subset h1)
+  unfold invperm
+  cases hf : (idx n).find? (fun i => A i == j) with
+  | none =>
+    rw [List.find?_eq_none] at hf
+    exact absurd (by simpa using hie) (hf i hi)
+  | some k =>
+    have hk := List.find?_some hf
+    have hm := List.mem_of_find?_eq_some hf
+    simp only [Option.getD_some]
+    exact ⟨hm, by simpa using hk⟩
+
+/-- `And(isperm(A, n, base), base == 0) -> And(isperm(invperm(A, n), n, 0), ForAll([j], Implies(And(0 <= j, j < n),
+    And(0 <= Select(inv, j), Select(inv, j) < n, Select(A, Select(inv, j)) == j))))`, `inv = invperm(A, n)` -/
+theorem invperm_facts (A : ℤ → ℤ) (n base : ℤ) : (isperm A n base ∧ base = 0) →
+    (isperm (invperm A n) n 0 ∧
+     ∀ j : ℤ, (0 ≤ j ∧ j < n) →
+       (0 ≤ invperm A n j ∧ invperm A n j < n ∧ A (invperm A n j) = j)) := by
+  rintro ⟨hp, rfl⟩
+  have hspec := invperm_spec A n hp
+  refine ⟨?_, ?_⟩
+  · unfold isperm
+    have hid : (idx n).map (fun j => (0:ℤ) + j) = idx n := by simp
+    rw [hid]
+    have hnd : ((idx n).map (invperm A n)).Nodup := by
+      apply List.Nodup.map_on _ (idx_nodup n)
+      intro x hx y hy hxy
+      have hx' := (hspec x ((mem_idx n x).mp hx)).2
+      have hy' := (hspec y ((mem_idx n y).mp hy)).2
+      rw [← hx', ← hy', hxy]
+    have hsub : (idx n).map (invperm A n) ⊆ idx n := by
+      intro y hy
+      obtain ⟨x, hx, rfl⟩ := List.mem_map.mp hy
+      exact (hspec x ((mem_idx n x).mp hx)).1
+    exact (List.subperm_of_subset hnd hsub).perm_of_length_le (by simp)
+  · intro j hj
+    obtain ⟨h1, h2⟩ := hspec j hj
+    rw [mem_idx] at h1
+    exact ⟨h1.1, h1.2, h2⟩
+
+/-- `And(sortedperm(T, A, n), n2 == n) -> isperm(A, n, base) ==
+    ForAll([j], Implies(And(0 <= j, j < n), Select(T, j) == base + j))`
+    (the `isperm` term found in the VC is `isperm(A, n2, base)`; L13a is the core) -/
+theorem sortedperm_iff_isperm (T A : ℤ → ℤ) (n n2 base : ℤ) : (sortedperm T A n ∧ n2 = n) →
+    (isperm A n base ↔ ∀ j : ℤ, (0 ≤ j ∧ j < n) → T j = base + j) := by
+  rintro ⟨⟨hperm, hsorted⟩, _⟩
+  have htarget : ((idx n).map (fun j => base + j)).Pairwise (· ≤ ·) := by
+    rw [List.pairwise_map]
+    exact (idx_pairwise_lt n).imp (fun h => by omega)
+  unfold isperm
+  constructor
+  · intro hp j hj
+    have heq : (idx n).map T = (idx n).map (fun j => base + j) :=
+      List.Perm.eq_of_pairwise (fun a b _ _ h1 h2 => le_antisymm h1 h2) hsorted htarget (hperm.trans hp)
+    exact (List.map_inj_left.mp heq) j ((mem_idx n j).mpr hj)
+  · intro h
+    have heq : (idx n).map T = (idx n).map (fun j => base + j) :=
+      List.map_inj_left.mpr (fun j hj => h j ((mem_idx n j).mp hj))
+    rw [← heq]
+    exact hperm.symm
+
+/-! ## `card2`: cardinality of a finite set of pairs given by its characteristic array
+    `PairSet = Array Int Int Bool := ℤ → ℤ → Bool`; `Store(E, x, y, v)` is the point update.
+    `card2 E := Set.ncard {p | E p.1 p.2}` (which is 0 for an infinite set). -/
+
+def pairs (E : ℤ → ℤ → Bool) : Set (ℤ × ℤ) := {p | E p.1 p.2 = true}
+noncomputable def card2 (E : ℤ → ℤ → Bool) : ℤ := ((pairs E).ncard : ℤ)
+def store2 (E : ℤ → ℤ → Bool) (x y : ℤ) (v : Bool) : ℤ → ℤ → Bool :=
+  fun a b => if a = x ∧ b = y then v else E a b
+
+/-- `card2(E) >= 0` -/
+theorem card2_nonneg (E : ℤ → ℤ → Bool) : card2 E ≥ 0 := by unfold card2; omega
+
+theorem pairs_store_true (E : ℤ → ℤ → Bool) (x y : ℤ) :
+    pairs (store2 E x y true) = insert (x, y) (pairs E) := by
+  ext ⟨a, b⟩
+  simp only [pairs, store2, Set.mem_ofPred_eq, Set.mem_insert_iff, Prod.mk.injEq]
+  by_cases h : a = x ∧ b = y <;> simp [h]
+
+theorem pairs_store_false (E : ℤ → ℤ → Bool) (x y : ℤ) :
+    pairs (store2 E x y false) = pairs E \ {(x, y)} := by
+  ext ⟨a, b⟩
+  simp only [pairs, store2, Set.mem_ofPred_eq, Set.mem_sdiff, Set.mem_singleton_iff, Prod.mk.injEq]
+  by_cases h : a = x ∧ b = y <;> simp [h]
+
+/-- `card2(Store(E, x, y, v)) == card2(E) + If(v, If(Select(E, x, y), 0, 1), If(Select(E, x, y), -1, 0))`
+    UNDER THE HYPOTHESIS THAT THE SET IS FINITE.  specs.py emits it without any such guard; for an
+    infinite `E` no integer-valued `card2` with `card2 >= 0` can satisfy the rule for all stores. -/
+theorem card2_store (E : ℤ → ℤ → Bool) (x y : ℤ) (v : Bool) (hfin : (pairs E).Finite) :
+    card2 (store2 E x y v) =
+      card2 E + (if v = true then (if E x y = true then 0 else 1) else (if E x y = true then -1 else 0)) := by
+  unfold card2
+  cases v with
+  | true =>
+    rw [pairs_store_true]
+    by_cases h : E x y = true
+    · have hm : (x, y) ∈ pairs E := h
+      rw [Set.insert_eq_of_mem hm]; simp [h]
+    · have hm : (x, y) ∉ pairs E := h
+      rw [Set.ncard_insert_of_notMem hm hfin]; simp [h]
+  | false =>
+    rw [pairs_store_false]
+    by_cases h : E x y = true
+    · have hm : (x, y) ∈ pairs E := h
+      have := Set.ncard_sdiff_singleton_add_one hm hfin
+      simp [h]; omega
+    · have hm : (x, y) ∉ pairs E := h
+      rw [Set.sdiff_singleton_eq_self hm]; simp [h]
+
+/-- finiteness is preserved by `Store`, and the empty set is finite: every array built from the
+    empty set by finitely many stores satisfies the hypothesis of `card2_store`. -/
+theorem pairs_store_finite (E : ℤ → ℤ → Bool) (x y : ℤ) (v : Bool) (hfin : (pairs E).Finite) :
+    (pairs (store2 E x y v)).Finite := by
+  cases v with
+  | true => rw [pairs_store_true]; exact hfin.insert _
+  | false => rw [pairs_store_false]; exact hfin.subset Set.sdiff_subset
+
+theorem pairs_empty_finite : (pairs (fun _ _ => false)).Finite := by
+  have : pairs (fun _ _ => false) = ∅ := by ext p; simp [pairs]
+  rw [this]; exact Set.finite_empty
+
+/-! ## uninterpreted in specs.py, NO schema emitted: `gdom`, `grng`, `rowlits`, `collits`. -/
 
 end CnfSem
